@@ -1264,6 +1264,16 @@ pub fn gate(r: &Req, b: &Built) -> Result<String, String> {
 }
 
 pub fn run(r: &Req) -> Vec<(String, String)> {
+    // `topfind` / `topiter` / `topismatch` / `topovl`: the same real methods, compared with the capstone model
+    let stripped;
+    let r = if matches!(r.op.as_str(), "topfind" | "topiter" | "topismatch" | "topovl") {
+        let mut r2 = r.clone();
+        r2.op = r.op[3..].to_string();
+        stripped = r2;
+        &stripped
+    } else {
+        r
+    };
     let cfgs = match cfgs_of(r) {
         Ok(c) => c,
         Err(e) => return vec![("-".into(), format!("bad-request:{}", e))],
